@@ -341,12 +341,13 @@ func FreeSelect(rt *rapid.T) Select {
 	for i := 0; i < no; i++ {
 		q.OrderBy = append(q.OrderBy, OrderKey{Col: freeColRef(rt), Dir: rapid.SampledFrom([]string{"", "asc", "desc"}).Draw(rt, "dir")})
 	}
+	lim := rapid.OneOf(rapid.IntRange(0, 1000), rapid.SampledFrom([]int{0, 1, 9223372036854775807, 9223372036854775806, 4611686018427387904, 2147483648}))
 	if rapid.IntRange(0, 2).Draw(rt, "haslimit") == 0 {
-		v := rapid.IntRange(0, 1000).Draw(rt, "limit")
+		v := lim.Draw(rt, "limit")
 		q.Limit = &v
 	}
 	if rapid.IntRange(0, 2).Draw(rt, "hasoffset") == 0 {
-		v := rapid.IntRange(0, 1000).Draw(rt, "offset")
+		v := lim.Draw(rt, "offset")
 		q.Offset = &v
 	}
 	q.LimitFirst = rapid.Bool().Draw(rt, "limitfirst")
